@@ -107,6 +107,10 @@ def run(ctx):
         sizes = [int(rng.integers(7, 12)) for _ in range(ncls)]
         if name == 'SCML_Supervised' and rep % 2 == 1:
           sizes = [5] + [int(rng.integers(14, 20)) for _ in range(ncls - 1)]     # one small class, the others large
+        if name in ('ITML_Supervised', 'MMC_Supervised', 'SDML_Supervised', 'LSML_Supervised') and layout == 'full' and rep == 0:
+          # a small training set: the default number of constraints (20 * n_classes^2 = 180) exceeds the number of pairs of points
+          ncls, sizes = 3, [5, 5, 5]
+          ctx.hist('small_training_set', name)
         data = fits.make_data(rng, n_classes=ncls, n_per_class=sizes)
         X, y = data['X'], data['y'].copy()
         if layout == 'full' and rep == 0:
